@@ -249,8 +249,10 @@ func (i *Interpreter) executeReassign(stmt ReassignStatement, env *Environment) 
 		return nil, fmt.Errorf("cannot assign to undeclared variable '%s'", stmt.Target)
 	}
 
-	// Check if target is a constant (immutable)
-	if i.IsConstant(stmt.Target) {
+	// Check if target is a constant (immutable). A parameter, loop variable or
+	// other local of the same name shadows the constant and is an ordinary
+	// variable: only a name that resolves to the module scope is the constant.
+	if i.IsConstant(stmt.Target) && i.boundInModuleScope(stmt.Target, env) {
 		return nil, fmt.Errorf("cannot reassign constant '%s'", stmt.Target)
 	}
 
